@@ -350,6 +350,39 @@ pub fn run(started: Instant) -> i32 {
         infra::watch_idle();
     });
     rep.merge(rep0);
+    // the same faults through the mlar binary: `repair` without option must write exactly what the library's
+    // authenticated-only repair recovers, with --allow-unauthenticated-data what the unauthenticated one does
+    let exe = crate::cli::mlar_path("s");
+    if infra::ctx().part.is_none() && exe.exists() {
+        let step = if thorough { 1 } else { 3 };
+        let cli_jobs: Vec<&Job> = jobs.iter().filter(|j| matches!(j.f, Fault::Flip { .. })).step_by(step).collect();
+        let r = infra::par_explore(&cli_jobs, |j, rep| {
+            infra::watch_case(json!({"cli": true, "base": j.b.label, "fault": j.f.json()}));
+            let scratch = crate::cli::Scratch::new("c04cli");
+            sweep::write_key0(scratch.path());
+            let bytes = j.f.apply(&j.archive);
+            for unauth in [false, true] {
+                rep.evaluations += 1;
+                rep.transitions += 2;
+                let h = fnv(format!("cli{}{:?}{unauth}", j.b.label, j.f).as_bytes());
+                rep.state(h);
+                rep.nontrivial(h);
+                match sweep::cli_repair_disagrees(&exe, scratch.path(), &bytes, true, unauth) {
+                    None => rep.class(&format!("mlar-repair/{}/agrees", if unauth { "allow-unauthenticated" } else { "default" })),
+                    Some(d) => rep.violate(Violation {
+                        sig: json!({"kind": "mlar_repair_differs_from_library_repair", "mode": if unauth { "allow-unauthenticated-data" } else { "default" }}),
+                        detail: format!("base {} fault {:?}: {d}", j.b.label, j.f),
+                        replay: json!({"cli": true, "base": j.b.label, "fault": j.f.json(), "unauthenticated": unauth, "input_hex": hex::encode(&bytes)}),
+                        weight: j.f.pos() as u64,
+                    }),
+                }
+            }
+            infra::watch_idle();
+        });
+        rep.merge(r);
+    } else if infra::ctx().part.is_none() {
+        rep.notes.push("mlar binary not built: repair through the CLI not exercised".to_string());
+    }
     if infra::ctx().part.is_none() && thorough {
         infra::run_part("s2", "scaled2", &mut rep);
     }
@@ -357,7 +390,7 @@ pub fn run(started: Instant) -> i32 {
         rep,
         Meta {
             level: "fault_enumeration",
-            rule: "encrypted base archives (real writer) whose file content carries, at the start of every encryption chunk, a well-formed FileContent/EndOfArchiveData or FileStart block; for every chunk index: bit flips in payload (first/middle/last byte; thorough: every byte) and tag, and truncation at every offset inside the chunk; both repair modes run on each. Oracle: authenticated output is a prefix of the original with original names only; contains nothing beyond what an independent decoder extracts from the plaintext of chunks before the first failing one; and is a prefix of the unauthenticated output. Every case is non-trivial (a fault inside an encrypted archive)".to_string(),
+            rule: "encrypted base archives (real writer) whose file content carries, at the start of every encryption chunk, a well-formed FileContent/EndOfArchiveData or FileStart block; for every chunk index: bit flips in payload (first/middle/last byte; thorough: every byte) and tag, and truncation at every offset inside the chunk; both repair modes run on each. Oracle: authenticated output is a prefix of the original with original names only; contains nothing beyond what an independent decoder extracts from the plaintext of chunks before the first failing one; and is a prefix of the unauthenticated output. A third (thorough: all) of the bit-flip faults is also given to the mlar binary: `mlar repair` without option must write what the library's authenticated-only repair recovers, and with --allow-unauthenticated-data what the unauthenticated repair recovers. Every case is non-trivial (a fault inside an encrypted archive)".to_string(),
             exhaustive: true,
             bounds: json!({"bases": "one-file and three-interleaved-file encrypt-only archives of 7-8 chunks x {adversarial content block, adversarial new-file block, plain}; encrypt+compress archives with incompressible content (levels 5; thorough 0,5,11)", "faults": "per chunk: 3 payload flips (thorough: all bytes), 2 tag flips (thorough: all 16), every truncation offset"}),
             assumptions: vec!["scaled constants; adversarial continuation through brotli is not constructed (stated limit)".to_string(), "a forged tag is assumed impossible (2^-128)".to_string()],
@@ -368,6 +401,18 @@ pub fn run(started: Instant) -> i32 {
 
 pub fn replay(path: &str) -> i32 {
     let v = super::load_replay(path);
+    if v["cli"].as_bool().unwrap_or(false) {
+        let bytes = hex::decode(v["input_hex"].as_str().unwrap_or("")).unwrap_or_default();
+        let scratch = crate::cli::Scratch::new("c04cli");
+        sweep::write_key0(scratch.path());
+        let d = sweep::cli_repair_disagrees(&crate::cli::mlar_path("s"), scratch.path(), &bytes, true, v["unauthenticated"].as_bool().unwrap_or(false));
+        println!("replay: mlar repair against the library repair: {d:?}");
+        if d.is_some() {
+            println!("VIOLATION property=C04 replay={path}");
+            return 1;
+        }
+        return 0;
+    }
     let b = Base { p: Program::from_json(&v["program"]), cfg: Cfg::from_json(&v["cfg"]), label: "replay" };
     let archive = hex::decode(v["archive_hex"].as_str().unwrap_or("")).unwrap_or_default();
     let f = Fault::from_json(&v["fault"]);
